@@ -63,7 +63,7 @@ pub fn probe_image(
     let fs2 = fs.clone();
     let u2 = Arc::clone(u);
     let opts = spec.opts.clone();
-    let res = run_with_timeout(Duration::from_secs(30), move || {
+    let res = run_with_timeout(Duration::from_secs(240), move || {
         let r = std::panic::catch_unwind(std::panic::AssertUnwindSafe(|| {
             let mut ev = serde_json::Map::new();
             let o = opts.to_options(ROOT, &fs2);
